@@ -170,25 +170,25 @@ NOT_YET = {}
 
 # what rounds 3 and 4 added to each check (DESIGN.md 12.7 - 12.9); appended to the level text
 ADDED = {
- "C01": "Also: candidates outside the documented ranges that the toolkit's own validate() accepts; long-lived message / decoder objects incl. an encoding attempt that fails after validation. Round 5: decoded bursts changed in place between two decodes of the same octets.",
+ "C01": "Also: candidates outside the documented ranges that the toolkit's own validate() accepts; long-lived message / decoder objects incl. an encoding attempt that fails after validation. Round 5: decoded bursts changed in place between two decodes of the same octets. Round 6: decoded messages encoded again with every padding combination.",
  "C02": "Also: refused re-configurations in the middle of traffic; C02 owns the effect clauses on tuning / hopping state.",
- "C03": "Also: flood sessions (more than 512 bursts pending), multi-operation socket scenarios, three pre-emptions in thorough. Round 5: exceptions escaping a tick are C03's too; session inputs written from the layout (independent of the toolkit encoder); frame numbers beyond the hyperframe in the queue.",
- "C04": "Also: valid messages through one long-lived DATAInterface with sends that fail in between; trxcon's receive callback re-entered by the uplink path (RTS.ind answered with BURST.req).",
- "C05": "Also: measure sessions (every arrangement of idle / tuned / hopping transceivers), integer arguments in non-canonical spelling, the SETFH text trxcon composes from a hopping list (or its refusal as a whole) judged by TrxconTrace. Round 5: the last command of a link repeated octet for octet (executed and answered again).",
+ "C03": "Also: flood sessions (more than 512 bursts pending), multi-operation socket scenarios, three pre-emptions in thorough. Round 5: exceptions escaping a tick are C03's too; session inputs written from the layout (independent of the toolkit encoder); frame numbers beyond the hyperframe in the queue. Round 6: try-locks honoured by the mutex stand-in of the schedule harness.",
+ "C04": "Also: valid messages through one long-lived DATAInterface with sends that fail in between; trxcon's receive callback re-entered by the uplink path (RTS.ind answered with BURST.req). Round 6: send() failures on trxcon's TRXD socket (FAILSEND, CseqFailed: every datagram written is a given request, none twice).",
+ "C05": "Also: measure sessions (every arrangement of idle / tuned / hopping transceivers), integer arguments in non-canonical spelling, the SETFH text trxcon composes from a hopping list (or its refusal as a whole) judged by TrxconTrace. Round 5: the last command of a link repeated octet for octet (executed and answered again). Round 6: several commands waiting on the control socket at once, earlier commands repeated, the same SETFH after a power cycle.",
  "C06": "Also: well-formed frames for unclaimed DLCIs and the echo DLCI (WForeign, MC_SercommForeign), backlog of 255..300 messages on one DLCI, callbacks registered before the first sercomm_init().",
  "C07": "Also: spec HopCfg (configuration state machine: Establish / Redefine / Reach / Query) bound to real CMD SETFH datagrams + get_rx_freq/get_tx_freq of the application and to L1CTL_DM_EST_REQ / DM_FREQ_REQ through the handlers sliced from l23_api.c, prim_freq.c and rfch.c; long-lived HoppingParams objects.",
  "C08": "Also: callbacks that schedule while their frame is executed (ExecuteN / NestedStep, MC_TdmaNested), callbacks reporting success with a positive value. Round 5: marathons of 270-620 frame interrupts in one history.",
- "C09": "Also: rig with real threads under virtual time (ClckGenThreads: stop() arriving inside the handler, MC + trace validation), one uninterrupted run of a hyperframe + 3000 ticks (ClckGenLong), clock indications of the real Application. Round 5: LinkWire.tla - line-level schedules of the clock indications against a control reply inside the shared link code.",
+ "C09": "Also: rig with real threads under virtual time (ClckGenThreads: stop() arriving inside the handler, MC + trace validation), one uninterrupted run of a hyperframe + 3000 ticks (ClckGenLong), clock indications of the real Application. Round 5: LinkWire.tla - line-level schedules of the clock indications against a control reply inside the shared link code. Round 6: a handler blocking for more than a second in the two-thread rig.",
  "C10": "Also: bursts with degenerate payload around an intact training sequence; C10 owns the effect clauses on the state components that decide delivered values.",
  "C11": "Also: spec SchedDispatch bound to the unmodified sched_trx.c (every frame lookup in pull / rx / loss substitution / probe, reconfiguration from another combination), clause ChanNrTasks (chan_nr2mf_task_mask sliced from l23_api.c vs. trxcon's lchan descriptors), clause HistoryFree (frame-number jumps onto every multiframe position).",
  "C12": "Also: the two-thread clock rig (stop() really ends the worker), ownership of tuning / hopping effect clauses (readiness decides POWERON). Round 5: bursts written by other programs than the transceiver's L1 (port plan unchanged), repeated commands.",
- "C13": "Also: burst lengths 148+2 / 444+2, NOPE flag on version-0 objects, the simulator's forwarding path (C13.invalid-message-sent on sessions of the real Application).",
+ "C13": "Also: burst lengths 148+2 / 444+2, NOPE flag on version-0 objects, the simulator's forwarding path (C13.invalid-message-sent on sessions of the real Application). Round 6: bursts of validated messages resized in place.",
  "C14": "Also: valid-UTF-8 non-ASCII commands, hostile data from other source addresses with the clauses on where later bursts go, trxcon's receive path on hostile TRXD datagrams as TLC-judged records, timer stand-in that looks at the armed timer after every operation (use after free). Round 5: hopping sessions with queued frame numbers beyond the hyperframe.",
- "C15": "Also: captures beyond 64 KiB with skip/count slices, captures given as caller-opened file objects, append_all() over an iterable that reads the capture. Round 5: writers refilling one burst buffer per length, version-0 EDGE-length bursts in every tier.",
- "C17": "Also: NOPE parts whose content still holds a burst value, 1300 PDU objects created before the first datagram; the GMSK-AB / TSC set 1 disagreement is fixed (9a223a7). Round 5: a message the message codec refuses is retried with the burst length of the codec's own table (C17 is stated over what it produces).",
+ "C15": "Also: captures beyond 64 KiB with skip/count slices, captures given as caller-opened file objects, append_all() over an iterable that reads the capture. Round 5: writers refilling one burst buffer per length, version-0 EDGE-length bursts in every tier. Round 6: cuts inside the record straddling a read-ahead block boundary.",
+ "C17": "Also: NOPE parts whose content still holds a burst value, 1300 PDU objects created before the first datagram; the GMSK-AB / TSC set 1 disagreement is fixed (9a223a7). Round 5: a message the message codec refuses is retried with the burst length of the codec's own table (C17 is stated over what it produces). Round 6: degenerate sub-PDUs (all fields zero with an all-zero burst / at the other end).",
  "C19": "Also: every delta 2..60 from every position of the superframe, walks of mixed deltas.",
  "C20": "Also: spec SysinfoMA bound to the SI1 / SI4 handlers sliced from sysinfo.c on one struct gsm48_sysinfo (every truncation point in exactly sized buffers), the SETFH consumer in trxcon (TrxconTrace: command text = the list, or refused as a whole).",
- "C16": "Also: field tuples allocated like class-body literals (definitions built one after the other meet recycled objects).",
+ "C16": "Also: field tuples allocated like class-body literals (definitions built one after the other meet recycled objects). Round 6: values morphed in place between two encodings, hand-written definitions (sequences of fixed-length fields with an optional one).",
  "C18": "Also: repeated FAKE_DROP / RFMUTE datagrams re-arm.",
 }
 
